@@ -374,13 +374,13 @@ theorem enclosure (N M : Nat) (u X : ℚ) (hu : 0 < u) (hX : 0 < X) (hN : (10 : 
 /-- **read_back_bits (normal doubles).**  Printed with at least 17 significant digits (`d ≥ 16`), the decimal of a
 normal double rounds back to the same bit pattern. -/
 theorem decBits_decOf_normal (d b : Nat) (hd : 16 ≤ d) (hd' : d ≤ 5000) (hb : IsNormal b) :
-    decBits (decOf d b) = b := by
+    decBits (decOf0 d b) = b := by
   obtain ⟨hb64, hef1, hef2⟩ := hb
   have hnz : b % 9223372036854775808 ≠ 0 := by omega
   have hmant := sci_mant_nonzero d b hnz
   have hmant2 := (sci_mant d b).1
   have he10 := sci_e10_bound d b
-  have herr := decOf_err d b
+  have herr := decOf0_err d b
   have hneg := sci_neg d b
   set N := (sci d b).mant with hNdef
   set E := (sci d b).e10 with hEdef
@@ -388,8 +388,8 @@ theorem decBits_decOf_normal (d b : Nat) (hd : 16 ≤ d) (hd' : d ≤ 5000) (hb 
   set mf := b % 4503599627370496 with hmfdef
   have hef0 : ¬ ef = 0 := by omega
   -- the two values, sign factored out
-  have hdec : decOf d b = { neg := (b / 9223372036854775808 % 2 == 1), man := N, exp := E - (d : Int) } := by
-    unfold decOf sciDec
+  have hdec : decOf0 d b = { neg := (b / 9223372036854775808 % 2 == 1), man := N, exp := E - (d : Int) } := by
+    unfold decOf0 sciDec
     rw [hneg]
   have hbv : bitsVal b = (if (b / 9223372036854775808 % 2 == 1) then -1 else 1) *
       ((mf + 4503599627370496 : Nat) : ℚ) * (2 : ℚ) ^ ((ef : Int) - 1075) := by
@@ -504,17 +504,17 @@ theorem toBits_near_sub (neg : Bool) (a b M : Nat) (ha : 0 < a) (hb : 0 < b) (hM
 17 significant digits are more than enough -/
 theorem decBits_decOf_subnormal (d b : Nat) (hd : 16 ≤ d) (hd' : d ≤ 5000) (hb64 : b < 18446744073709551616)
     (hef : b / 4503599627370496 % 2048 = 0) (hmf : b % 4503599627370496 ≠ 0) :
-    decBits (decOf d b) = b := by
+    decBits (decOf0 d b) = b := by
   have hnz : b % 9223372036854775808 ≠ 0 := by omega
   have hmant := sci_mant_nonzero d b hnz
   have he10 := sci_e10_bound d b
-  have herr := decOf_err d b
+  have herr := decOf0_err d b
   have hneg := sci_neg d b
   set N := (sci d b).mant with hNdef
   set E := (sci d b).e10 with hEdef
   set mf := b % 4503599627370496 with hmfdef
-  have hdec : decOf d b = { neg := (b / 9223372036854775808 % 2 == 1), man := N, exp := E - (d : Int) } := by
-    unfold decOf sciDec
+  have hdec : decOf0 d b = { neg := (b / 9223372036854775808 % 2 == 1), man := N, exp := E - (d : Int) } := by
+    unfold decOf0 sciDec
     rw [hneg]
   have hbv : bitsVal b = (if (b / 9223372036854775808 % 2 == 1) then -1 else 1) *
       ((mf : Nat) : ℚ) * (2 : ℚ) ^ (-1074 : Int) := by
@@ -597,12 +597,12 @@ theorem decBits_decOf_subnormal (d b : Nat) (hd : 16 ≤ d) (hd' : d ≤ 5000) (
 
 /-- `±0.0` prints with mantissa 0 and reads back with its sign -/
 theorem decBits_decOf_zero (d b : Nat) (hd' : d ≤ 5000) (hb64 : b < 18446744073709551616)
-    (hz : b % 9223372036854775808 = 0) : decBits (decOf d b) = b := by
+    (hz : b % 9223372036854775808 = 0) : decBits (decOf0 d b) = b := by
   have h1 : b / 4503599627370496 % 2048 = 0 := by omega
   have h2 : b % 4503599627370496 = 0 := by omega
   have hsci : sci d b = { neg := (b / 9223372036854775808 % 2 == 1), mant := 0, e10 := 0 } := by
     simp [sci, sciOf, h1, h2]
-  unfold decOf sciDec decBits
+  unfold decOf0 sciDec decBits
   rw [hsci]
   simp only
   have hexp : ¬ ((0 : Int) - (d : Int)).natAbs > 6000 := by omega
